@@ -4,7 +4,7 @@ use rusty_common::*;
 use rusty_parser::{AsBareName, Expression, ExpressionPos, Operator, TypeQualifier, UnaryOperator};
 use rusty_variant::Variant;
 
-use crate::core::{LintError, LintErrorPos};
+use crate::core::{CastVariant, LintError, LintErrorPos};
 
 /// A lookup map of resolved constant values.
 pub trait ConstLookup {
@@ -104,10 +104,17 @@ where
                     Operator::Plus => v_left.plus(v_right),
                     Operator::Minus => v_left.minus(v_right),
                     Operator::Multiply => v_left.multiply(v_right),
-                    Operator::Divide => v_left.divide(v_right),
+                    Operator::Divide => v_left.divide_fp(v_right),
                     Operator::Modulo => v_left.modulo(v_right),
-                    Operator::And => v_left.and(v_right),
-                    Operator::Or => v_left.or(v_right),
+                    // like at runtime, the operands of AND and OR are converted to integer
+                    Operator::And => {
+                        let (l, r) = cast_both_to_integer(v_left, v_right).map_err(|e| e.at(right))?;
+                        l.and(r)
+                    }
+                    Operator::Or => {
+                        let (l, r) = cast_both_to_integer(v_left, v_right).map_err(|e| e.at(right))?;
+                        l.or(r)
+                    }
                 })
                 .map_err(LintError::from)
                 .map_err(|e| e.at(right))
@@ -128,6 +135,13 @@ where
             | Expression::BuiltInFunctionCall(_, _) => Err(LintError::InvalidConstant.at_pos(*pos)),
         }
     }
+}
+
+fn cast_both_to_integer(left: Variant, right: Variant) -> Result<(Variant, Variant), LintError> {
+    Ok((
+        left.cast(TypeQualifier::PercentInteger)?,
+        right.cast(TypeQualifier::PercentInteger)?,
+    ))
 }
 
 impl<S> ConstEvaluator<Box<ExpressionPos>> for S
